@@ -247,7 +247,11 @@ class Inliner:
 
     @staticmethod
     def _varargs_forwardable(t: FunctionInfo, call: ast.Call) -> bool:
-        return False
+        """*args / **kwargs of the helper are bound by name when the call forwards whole collections
+        (`helper(a, b, *xs, **kw)`) or passes nothing into them; decided in bind()."""
+        a = t.node.args
+        names = {x.arg for x in (a.vararg, a.kwarg) if x is not None}
+        return not any(isinstance(n, ast.Name) and n.id in names and isinstance(n.ctx, (ast.Store, ast.Del)) for n in t.own_nodes())
 
     # -- parameter binding
     def bind(self, t: FunctionInfo, call: ast.Call) -> tuple[dict[str, ast.AST], list[ast.stmt]] | None:
@@ -258,8 +262,25 @@ class Inliner:
         mapping: dict[str, ast.AST] = {}
         pre: list[ast.stmt] = []
         args = list(call.args)
-        if any(isinstance(x, ast.Starred) for x in args) or any(k.arg is None for k in call.keywords):
-            return None
+        keywords = list(call.keywords)
+        star = [x for x in args if isinstance(x, ast.Starred)]
+        dstar = [k for k in keywords if k.arg is None]
+        var_value: ast.AST | None = None
+        kw_value: ast.AST | None = None
+        if star:
+            if not (a.vararg and len(star) == 1 and args[-1] is star[0] and isinstance(star[0].value, ast.Name)):
+                return None
+            var_value = star[0].value
+            args = args[:-1]
+        if dstar:
+            if not (a.kwarg and len(dstar) == 1 and isinstance(dstar[0].value, ast.Name)):
+                return None
+            if a.args or a.kwonlyargs:
+                # a forwarded key equal to a named (non positional-only) parameter of the helper - `self` included -
+                # collides at run time: such a helper is not a transparent wrapper, keep it opaque
+                return None
+            kw_value = dstar[0].value
+            keywords = [k for k in keywords if k.arg is not None]
         decos = set(t.decorator_names())
         if t.is_method and "staticmethod" not in decos:
             if not isinstance(call.func, ast.Attribute):
@@ -268,14 +289,35 @@ class Inliner:
             if "classmethod" in decos and not _is_simple(recv):
                 return None
             args = [recv, *args]
+        if star and len(args) != len(params):
+            return None  # the starred elements would (partly) fill named parameters
         if len(args) > len(params):
-            return None
+            if not a.vararg or star or not all(_is_simple(x) for x in args[len(params) :]):
+                return None
+            var_value = ast.Tuple(elts=[clone(x) for x in args[len(params) :]], ctx=ast.Load())
+            args = args[: len(params)]
         for p, v in zip(params, args):
             mapping[p] = v
-        for k in call.keywords:
-            if k.arg in mapping or (k.arg not in params and k.arg not in kwonly):
+        extra_kw: list[ast.keyword] = []
+        for k in keywords:
+            if k.arg in mapping:
+                return None
+            if k.arg not in params and k.arg not in kwonly:
+                if not a.kwarg or dstar or not _is_simple(k.value):
+                    return None
+                extra_kw.append(k)
+                continue
+            if k.arg in [p.arg for p in a.posonlyargs]:
                 return None
             mapping[k.arg] = k.value
+        if dstar and any(p not in mapping and p not in defaults for p in params):
+            return None  # the ** mapping might supply named parameters
+        if a.vararg:
+            mapping[a.vararg.arg] = var_value if var_value is not None else ast.Tuple(elts=[], ctx=ast.Load())
+        if a.kwarg:
+            if kw_value is None:
+                kw_value = ast.Dict(keys=[ast.Constant(value=k.arg) for k in extra_kw], values=[clone(k.value) for k in extra_kw])
+            mapping[a.kwarg.arg] = kw_value
         for p in params:
             if p not in mapping:
                 if p not in defaults:
@@ -289,9 +331,12 @@ class Inliner:
         self.counter += 1
         k = self.counter
         final: dict[str, ast.AST] = {}
+        collections_ = {x.arg for x in (a.vararg, a.kwarg) if x is not None}
         for p, v in mapping.items():
             assigned_in_t = any(isinstance(n, ast.Name) and n.id == p and isinstance(n.ctx, ast.Store) for n in t.own_nodes())
-            if _is_simple(v) and not assigned_in_t:
+            if p in collections_:
+                final[p] = v  # bound by name / literal: `*args` inside the helper reads `*<caller's collection>`
+            elif _is_simple(v) and not assigned_in_t:
                 final[p] = v
             else:
                 tmp = f"{p}__h{k}"
